@@ -29,7 +29,10 @@ enum Rule { Create(String), Delete(String), Modify(String), Allow(String), Requi
 #[derive(Clone, Debug)]
 struct MStep { name: String, threshold: u32, keys: Vec<usize>, mat_rules: Vec<Rule>, prod_rules: Vec<Rule> }
 #[derive(Clone, Debug)]
-struct MLink { step: String, signer: usize, filed_under: usize, tampered: bool, mats: Arts, prods: Arts }
+struct MLink { step: String, signer: usize, filed_under: usize, tampered: bool, mats: Arts, prods: Arts, sub: Option<Sub> }
+/// evidence in the form of a sub-layout: inner steps (name, link present, materials, products) performed by functionary 5
+#[derive(Clone, Debug)]
+struct Sub { inner: Vec<(String, bool, Arts, Arts)>, expired: bool }
 #[derive(Clone, Debug)]
 struct Scenario { steps: Vec<MStep>, table: Vec<usize>, owners: Vec<usize>, signed_by: Vec<usize>, alias_owner: bool, dup_owner_sig: bool, expired: bool, links: Vec<MLink> }
 
@@ -107,6 +110,22 @@ fn expected(s: &Scenario, ids: &[String]) -> bool {
         // counted: signer authorised for this step, listed in the layout's key table, signature valid over the content as found
         let mut good: Vec<&MLink> = filed.into_iter().filter(|l| st.keys.contains(&l.signer) && s.table.contains(&l.signer) && !l.tampered).collect();
         if (good.len() as u32) < st.threshold || good.is_empty() { return false; }
+        // C15: counted evidence that is a sub-layout is verified like a layout (unexpired, every inner step evidenced); any failure is
+        // fatal; the sub-layout then stands for a link with the first inner step's materials and the last inner step's products
+        let mut resolved: Vec<MLink> = vec![];
+        for l in good.iter() {
+            match &l.sub {
+                None => resolved.push((*l).clone()),
+                Some(sub) => {
+                    if sub.expired || sub.inner.iter().any(|(_, present, _, _)| !present) { return false; }
+                    let mut m = (*l).clone();
+                    m.mats = sub.inner.first().map(|x| x.2.clone()).unwrap_or_default();
+                    m.prods = sub.inner.last().map(|x| x.3.clone()).unwrap_or_default();
+                    resolved.push(m);
+                }
+            }
+        }
+        let mut good: Vec<&MLink> = resolved.iter().collect();
         // C07: with threshold >= 2 all counted links agree
         if st.threshold >= 2 && !good.iter().all(|l| l.mats == good[0].mats && l.prods == good[0].prods) { return false; }
         // C13: the representative is the link under the least key id
@@ -161,7 +180,9 @@ fn gen(rng: &mut Rng) -> Scenario {
             if !rng.chance(75) { continue; }
             let dissent = rng.chance(12);
             links.push(MLink { step: st.name.clone(), signer: k, filed_under: if rng.chance(6) { 2 + ((k - 2 + 1) % 3) } else { k }, tampered: rng.chance(6),
-                               mats: if dissent { arts(rng) } else { shared_m.clone() }, prods: if dissent && rng.chance(50) { arts(rng) } else { shared_p.clone() } });
+                               mats: if dissent { arts(rng) } else { shared_m.clone() }, prods: if dissent && rng.chance(50) { arts(rng) } else { shared_p.clone() },
+                               sub: if rng.chance(12) { let n = 1 + rng.below(2) as usize;
+                                   Some(Sub { inner: (0..n).map(|i| (format!("in{}", i), !rng.chance(10), if rng.chance(50) { shared_m.clone() } else { arts(rng) }, if rng.chance(50) { shared_p.clone() } else { arts(rng) })).collect(), expired: rng.chance(10) }) } else { None } });
         }
     }
     Scenario { steps, table, owners, signed_by, alias_owner: rng.chance(4), dup_owner_sig: rng.chance(10), expired: rng.chance(3), links }
@@ -180,6 +201,29 @@ fn to_artifacts(a: &Arts) -> BTreeMap<VirtualTargetPath, in_toto::models::Target
 fn run_one(s: &Scenario, pool: &[PrivateKey]) -> Result<bool, String> {
     let d = tmpdir();
     for l in &s.links {
+        if let Some(sub) = &l.sub {
+            let inner_k = &pool[5];
+            let inner_steps = sub.inner.iter().map(|(n, _, _, _)| step(n, 1, &[inner_k], allow_all(), allow_all())).collect();
+            let il = layout(inner_steps, vec![], &[inner_k], if sub.expired { -1 } else { 30 });
+            let mut mb = signed_layout(&il, &[&pool[l.signer]]);
+            if l.tampered {
+                let other = layout(vec![step("other", 1, &[inner_k], allow_all(), allow_all())], vec![], &[inner_k], 30);
+                let sigs = mb.signatures.clone();
+                mb = signed_layout(&other, &[]);
+                mb.signatures = sigs;
+            }
+            write_link(d.path(), &l.step, pool[l.filed_under].key_id(), &mb);
+            // the inner links live in <dir>/<step>.<prefix of the key the evidence is counted under>/
+            let subdir = d.path().join(format!("{}.{}", l.step, pool[l.signer].key_id().prefix()));
+            std::fs::create_dir_all(&subdir).unwrap();
+            for (n, present, m, p) in &sub.inner {
+                if *present {
+                    let lm = LinkMetadataBuilder::new().name(n.clone()).materials(to_artifacts(m)).products(to_artifacts(p)).build().unwrap();
+                    write_link(&subdir, n, inner_k.key_id(), &signed_link(&lm, &[inner_k]));
+                }
+            }
+            continue;
+        }
         let lm = LinkMetadataBuilder::new().name(l.step.clone()).materials(to_artifacts(&l.mats)).products(to_artifacts(&l.prods)).build().unwrap();
         let mut mb = signed_link(&lm, &[&pool[l.signer]]);
         if l.tampered {
